@@ -1,3 +1,99 @@
 package main
 
-func runC12proc(c *runCtx) {}
+import (
+	"fmt"
+	"math/rand"
+	nethttp "net/http"
+	"path/filepath"
+	"strings"
+	"sync"
+	"sync/atomic"
+	"time"
+
+	"github.com/resonatehq/resonate/internal/verifh/vh"
+)
+
+// C12, process part: SIGTERM while HTTP requests are in flight. Every request
+// that receives an HTTP reply must carry a result or an explicit error
+// (503 while shutting down); the server must exit with status 0. Requests
+// that get no reply at all while the listener is being closed are counted
+// (HTTP cannot tell "never accepted" from "accepted and dropped"), not judged.
+func runC12proc(c *runCtx) {
+	rounds := 8
+	if c.tier == "thorough" {
+		rounds = 160
+	}
+	for round := 0; round < rounds; round++ {
+		if round%c.nshards != c.shard {
+			continue
+		}
+		r := rand.New(rand.NewSource(vh.Mix(c.seed, "c12proc", round)))
+		srv := NewServer(filepath.Join(c.scratch, fmt.Sprintf("c12r%d", round)), "--api-size", fmt.Sprint(pick(r, 1, 2, 100)), "--system-coroutine-max-size", fmt.Sprint(pick(r, 2, 10, 1000)))
+		srv.FreshDB()
+		if err := srv.Start(); err != nil {
+			panic(err)
+		}
+		var replies, noReply, bad atomic.Int64
+		var badExample atomic.Value
+		statuses := sync.Map{}
+		var stop atomic.Bool
+		var wg sync.WaitGroup
+		hc := &nethttp.Client{Timeout: 20 * time.Second, Transport: &nethttp.Transport{DisableKeepAlives: true}}
+		for cl := 0; cl < 8; cl++ {
+			wg.Add(1)
+			go func(cl int) {
+				defer wg.Done()
+				for k := 0; !stop.Load() && k < 400; k++ {
+					var res *nethttp.Response
+					var err error
+					if k%2 == 0 {
+						res, err = hc.Post("http://"+srv.httpAddr+"/promises", "application/json", strings.NewReader(fmt.Sprintf(`{"id":"c%d.%d","timeout":%d}`, cl, k, time.Now().UnixMilli()+100000)))
+					} else {
+						res, err = hc.Get("http://" + srv.httpAddr + fmt.Sprintf("/promises/c%d.%d", cl, k-1))
+					}
+					if err != nil {
+						noReply.Add(1)
+						if strings.Contains(err.Error(), "refused") {
+							return
+						}
+						continue
+					}
+					res.Body.Close()
+					replies.Add(1)
+					n, _ := statuses.LoadOrStore(res.StatusCode, new(atomic.Int64))
+					n.(*atomic.Int64).Add(1)
+					if !(res.StatusCode < 500 || res.StatusCode == 503) {
+						bad.Add(1)
+						badExample.Store(fmt.Sprintf("%d", res.StatusCode))
+					}
+				}
+			}(cl)
+		}
+		time.Sleep(time.Duration(20+r.Intn(200)) * time.Millisecond)
+		srv.Term()
+		exited := srv.WaitExit(25 * time.Second)
+		stop.Store(true)
+		wg.Wait()
+		c.rep.Evaluations++
+		c.rep.Nontriv(vh.Hash("c12proc", round))
+		c.rep.Events += int(replies.Load())
+		c.rep.HitN("proc.replies", int(replies.Load()))
+		c.rep.HitN("proc.requests-without-reply-while-listener-closing", int(noReply.Load()))
+		statuses.Range(func(k, v any) bool {
+			c.rep.HitN(fmt.Sprintf("proc.http-status.%d", k.(int)), int(v.(*atomic.Int64).Load()))
+			return true
+		})
+		if !exited {
+			c.violate("sigterm:no-exit", fmt.Sprintf("round %d: the server did not exit within 25 s of SIGTERM with requests in flight :: %s", round, srv.LogTail()), nil)
+			srv.Kill()
+		} else if code := srv.ExitCode(); code != 0 {
+			c.violate("sigterm:exit-status", fmt.Sprintf("round %d: exit status %d after SIGTERM with requests in flight :: %s", round, code, srv.LogTail()), nil)
+		}
+		if bad.Load() > 0 {
+			c.violate("sigterm:unexpected-status", fmt.Sprintf("round %d: %d replies were neither a result nor an explicit error (e.g. %v)", round, bad.Load(), badExample.Load()), nil)
+		}
+		srv.Close()
+	}
+}
+
+func pick[T any](r *rand.Rand, xs ...T) T { return xs[r.Intn(len(xs))] }
